@@ -281,3 +281,34 @@ def defaults_do_not_share_state(delta: int) -> bool:
     T = _builders()
     return (_fresh(lambda: T.get_data_config(train_labels_path="a.slp", val_labels_path="b.slp"), delta) and _fresh(lambda: T.get_trainer_config(), delta)
             and _fresh(lambda: T.get_model_config(backbone_config="unet", head_configs="centroid"), delta))
+
+
+def scheduler_dict_reaches_its_place(step: bool, give_a: bool, give_b: bool, a: int, g: float) -> bool:
+    """
+    pre: 1 <= a <= 1000 and 0.0 < g <= 1.0
+    post: _
+    """
+    # a scheduler named with a parameter dictionary -- possibly EMPTY -- is selected, carries the given parameters and the schema
+    # defaults for the rest; the other scheduler stays unset
+    from sleap_nn.config.trainer_config import StepLRConfig, ReduceLROnPlateauConfig
+    T = _builders()
+    if step:
+        d = {}
+        if give_a:
+            d["step_size"] = a
+        if give_b:
+            d["gamma"] = g
+        c = T.get_trainer_config(lr_scheduler={"step_lr": d}).lr_scheduler
+        ref = StepLRConfig()
+        s = c.step_lr
+        return (s is not None and c.reduce_lr_on_plateau is None and s.step_size == (a if give_a else ref.step_size) and s.gamma == (g if give_b else ref.gamma))
+    d = {}
+    if give_a:
+        d["patience"] = a
+    if give_b:
+        d["factor"] = g
+    c = T.get_trainer_config(lr_scheduler={"reduce_lr_on_plateau": d}).lr_scheduler
+    ref = ReduceLROnPlateauConfig()
+    s = c.reduce_lr_on_plateau
+    return (s is not None and c.step_lr is None and s.patience == (a if give_a else ref.patience) and s.factor == (g if give_b else ref.factor)
+            and s.threshold == ref.threshold and s.cooldown == ref.cooldown and s.threshold_mode == ref.threshold_mode)
